@@ -240,6 +240,8 @@ def c01(ctx):
     # (3) the binding at step level: recorded engine runs are behaviours of VM.tla
     tsample = [c for c in cases if c["id"] % (23 if quick else 5) == 0] + \
               [dict(c, id=c["id"] + 200000) for c in ctx.gen_cases("C02") if c["id"] % (9 if quick else 3) == 0]
+    if ctx.violations:
+        return            # the replays already decided; recording step traces of a deviating engine adds nothing
     res = validate_vm_traces(ctx, "c01", expand_texts(cap_texts(tsample), 30 if quick else 60, ctx.seed))
     if not res["accepted"] and "rejected_case" in res:
         # classify: an observable difference is a verdict, an internal one a diagnostic
@@ -403,8 +405,11 @@ def validate_vm_traces(ctx, name, cases, timeout=900, max_events=300000):
     with open(inp, "w") as f:
         for c in cases:
             f.write(json.dumps(c, separators=(",", ":")) + "\n")
-    p = subprocess.run([ctx.get_harness(), "trace", "-cases", inp, "-out", os.path.join(d, "T"),
-                        "-max-events", str(max_events)], capture_output=True, text=True, timeout=600)
+    try:
+        p = subprocess.run([ctx.get_harness(), "trace", "-cases", inp, "-out", os.path.join(d, "T"),
+                            "-max-events", str(max_events)], capture_output=True, text=True, timeout=600)
+    except subprocess.TimeoutExpired:
+        raise Undecided("recording engine step traces did not finish in 600 s")
     if p.returncode != 0:
         raise Undecided("trace recording failed: " + p.stderr[-1000:])
     info = json.loads(p.stdout.strip().splitlines()[-1])
@@ -423,7 +428,8 @@ def validate_vm_traces(ctx, name, cases, timeout=900, max_events=300000):
             if '"ev":"step"' in ln:
                 o = json.loads(ln)["op"]
                 ops[o] = ops.get(o, 0) + 1
-    res = {"traces": info["cases"], "events": info["events"], "skipped": info["skipped"], "steps_per_vm_action": ops,
+    res = {"traces": info["cases"], "events": info["events"], "skipped": info["skipped"], "over_budget": info.get("over_budget", 0),
+           "steps_per_vm_action": ops,
            "accepted": not rejected and st["ok"] and not inv, "distinct_states": st["distinct"]}
     if inv:
         res["invariant_violated"] = inv.group(1)
@@ -693,6 +699,19 @@ def c09(ctx):
     ctx.replay("C09-captures-files", c2, FIELDS["C09"], mode="both")
     pc = ctx.gen_cases("C09P")
     ctx.replay("C09-process", pc, FIELDS["C09"])
+    # inputs beyond the reader's and the memory writer's buffer sizes: returns normally, file = string
+    pat = [ord(ch) for ch in "ab c\nxy  z9\n"]
+    big = lambda n: [pat[i % len(pat)] for i in range(n)]
+    anyc = {"k": "cls", "c": "any", "neg": False}
+    find = lambda body: {"kind": "find", "amt": {"k": "all"}, "body": body}
+    repl = lambda body, w: {"kind": "replace", "amt": {"k": "all"}, "body": body, "with": [{"k": "str", "s": list(w)}]}
+    progs = [[repl([lit(b"z9")], b"a-longer-replacement")], [repl([lit(b"q")], b"x")], [repl([lit(b"ab c")], b"")],
+             [repl([lit(b"xy")], b"r" * 5000)], [find([lit(b"z9"), {"k": "anc", "c": "lineend", "neg": False}])],
+             [repl([{"k": "anc", "c": "filestart", "neg": False}, lit(b"ab")], b"Z"), find([lit(b"9\n"), {"k": "anc", "c": "fileend", "neg": False}])]]
+    sizes = [4095, 4096, 4097, 8193, 9000] if quick else [2048, 4095, 4096, 4097, 6145, 8192, 8193, 9000, 12289, 20000]
+    bcases = [{"id": i + 1, "cmds": p, "texts": [big(n) for n in sizes]} for i, p in enumerate(progs)]
+    bexps = [{"id": c["id"], "r": [{"t": t, "ms": [], "firm": False, "undef": False, "noret": False} for t in c["texts"]]} for c in bcases]
+    ctx.replay("C09-big-inputs", bcases, FIELDS["C09"], mode="both", exps=bexps, want_ast=False)
 
 
 FIELDS["C10"] = ["budget", "hang", "crash", "panic", "spans"]
@@ -1152,6 +1171,7 @@ def c17_cases():
         [find([lit(b"a")]), repl([cap("q", lit(b"a"))], [{"k": "name", "name": "q"}, {"k": "name", "name": "q"}])],
         [find([lit(b"zzz")])],
         [repl([lit(b"a")], [{"k": "str", "s": []}])],                      # the empty replacement is a replacement
+        [repl([lit(b"a")], [{"k": "str", "s": [88]}]), find([anyc]), repl([lit(b'"')], [{"k": "name", "name": "value"}]), find([lit(b"a")])],
         [repl([cap("q", anyc)], [{"k": "name", "name": "q"}, {"k": "str", "s": []}, {"k": "name", "name": "matchNumber"}])],
     ]
     cases = [{"id": i + 1, "cmds": p, "texts": texts} for i, p in enumerate(progs)]
@@ -1235,8 +1255,8 @@ def c20(ctx):
 # ------------------------------------------------------------------- C18
 RULES["C18"] = ("the full cross product of spec/Cli.tla: source kind {-com, -src, both, neither} x stdout format {text, -json, "
                 "-formatted-json, both} x -json-file x -formatted-json-file x replace mode {default, NEW, NOTHING, OVERWRITE, "
-                "unknown} x -no-output x program {find with matches, find without, replace, failing} x files {one, glob, none "
-                "matching, flag absent} = 10240 configurations (all executed); non-trivial = a documented "
+                "unknown} x -no-output x program {find with matches, find without, replace, failing, two commands} x files {one, "
+                "glob, none matching, flag absent} = 12800 configurations (all executed); non-trivial = a documented "
                 "invocation that prints or writes results")
 
 
